@@ -49,7 +49,8 @@ PARTIAL = ["a truncated message BODY followed by EOF makes pyarrow raise OSError
            "property text, reported in the evidence as outcome silentStop for that class only"]
 RULE = (
     "structured generator: method x version x metadata keys/values x schema (declared / arbitrary types) x rows 0..3 x batches "
-    "0..2 x shm segment kind (none, missing, foreign, real) x pointer validity; plus truncation at every offset (thorough) / "
+    "0..2 x shm segment kind (none, missing, real, weird name, foreign of size 1/8/16/23/24/25/4096/header-only with zero / wrong-version "
+    "/ wrong-size / valid headers) x advertised size x pointer validity; plus truncation at every offset (thorough) / "
     "sampled offsets and byte corruptions of valid streams; a case = (bytes, transport); non-trivial when it is not the plain "
     "valid request; distinct by canonical JSON of the request description"
 )
@@ -131,6 +132,41 @@ def plain_array(rng: Any, rows: int) -> tuple[str, pa.Array]:
     return n, f()
 
 
+# foreign (not created by vgi_rpc) segments: mapping size x what the first bytes look like
+FOREIGN_SPECS: dict[str, tuple[int, bytes]] = {
+    "zero1": (1, b""), "zero16": (16, b""), "zero23": (23, b""), "zero24": (24, b""), "zero25": (25, b""), "zero4096": (4096, b""),
+    "magic_only8": (8, b"VGIS\x01\x00\x00\x00"),                                                 # right magic, cut inside the header
+    "badversion": (4096, b"VGIS" + (2).to_bytes(4, "little") + (0).to_bytes(8, "little") + bytes(8)),
+    "badsize": (4096, b"VGIS" + (1).to_bytes(4, "little") + (123).to_bytes(8, "little") + bytes(8)),
+    "hdronly": (65536, b"VGIS" + (1).to_bytes(4, "little") + (0).to_bytes(8, "little") + bytes(8)),  # valid header, no data area
+}
+FOREIGN_LABELS = sorted(FOREIGN_SPECS)
+
+
+def seg_md(ref: dict[str, Any] | None, segs: dict[str, Any]) -> dict[bytes, bytes]:
+    """Metadata keys advertising the referenced segment."""
+    if ref is None:
+        return {}
+    label = ref["label"]
+    if label == "missing":
+        name, actual = b"no_such_segment_c05", 4096
+    elif label == "real":
+        name, actual = segs["real"].name.encode(), segs["real"].size
+    elif label.startswith("w:"):
+        name, actual = label[2:].encode("latin-1"), 4096
+    else:
+        name, actual = segs["foreigns"][label].name.encode(), FOREIGN_SPECS[label][0]
+    out = {b"vgi_rpc.shm_segment_name": name}
+    size = ref.get("size")
+    if size == "actual":
+        out[b"vgi_rpc.shm_segment_size"] = str(actual).encode()
+    elif isinstance(size, str) and size.endswith(":hex"):
+        out[b"vgi_rpc.shm_segment_size"] = bytes.fromhex(size[:-4])
+    elif size is not None:
+        out[b"vgi_rpc.shm_segment_size"] = str(size).encode()
+    return out
+
+
 MD_VALUES = [b"", b"1", b"0", b"-1", b"abc", b"\xff\xfe", b"9" * 40, b"4096", b"true", b"\x00", "ü".encode(), b"a" * 300]
 ARB_KEYS = [b"x", b"vgi_rpc.unknown", b"vgi_rpc.cancel", b"vgi_rpc.location", b"vgi_rpc.log_message", b"", b"\xff", b"vgi_rpc.stream_state#b64",
             b"vgi_rpc.request_id", b"vgi_rpc.shm_source"]
@@ -158,16 +194,19 @@ def gen_request(rng: Any, segs: dict[str, Any]) -> dict[str, Any]:
     if rng.random() < 0.15:
         put(b"vgi_rpc.protocol_version", rng.choice([b"1.2.3", b"2.0.0", b"\xff", b"", b"1.2"]))
     seg_kind = "none"
+    d["seg"] = None
     if rng.random() < 0.4:
-        seg_kind = rng.choice(["missing", "foreign", "real", "weird", "real"])
-        name = {"missing": b"no_such_segment_c05", "foreign": segs["foreign"].name.encode(), "real": segs["real"].name.encode(),
-                "weird": rng.choice([b"", b"a\x00b", b"a/b/c", b"x" * 400, b"\xff\xfe", b"/", b"."])}[seg_kind]
-        put(b"vgi_rpc.shm_segment_name", name)
+        seg_kind = rng.choice(["missing", "foreign", "foreign", "real", "weird", "real"])
+        # symbolic reference (resolved by `build` against the running process's segments, so a stored case replays)
+        label = {"missing": "missing", "foreign": rng.choice(FOREIGN_LABELS), "real": "real",
+                 "weird": rng.choice(["w:", "w:a\x00b", "w:a/b/c", "w:" + "x" * 400, "w:\xff\xfe", "w:/", "w:."])}[seg_kind]
+        size: Any = None
         r = rng.random()
         if r < 0.75:
-            put(b"vgi_rpc.shm_segment_size", str(segs["real"].size).encode() if seg_kind == "real" else rng.choice([b"4096", b"0", b"1"]))
+            size = "actual" if seg_kind in ("real", "foreign") and rng.random() < 0.7 else rng.choice(["4096", "0", "1", "16", "24"])
         elif r < 0.92:
-            put(b"vgi_rpc.shm_segment_size", rng.choice([b"-5", b"abc", b"\xff", b"9" * 40, b"", b"1e3", b" 12 "]))
+            size = rng.choice([b"-5", b"abc", b"\xff", b"9" * 40, b"", b"1e3", b" 12 "]).hex() + ":hex"
+        d["seg"] = {"label": label, "size": size}
     d["seg_kind"] = seg_kind
     d["pointer"] = None
     if rng.random() < (0.5 if seg_kind != "none" else 0.08):
@@ -218,6 +257,7 @@ def build(d: dict[str, Any], segs: dict[str, Any]) -> bytes:
         schema = pa.schema(fields)
     batch = pa.RecordBatch.from_arrays(arrays, schema=schema) if len(schema) else pa.RecordBatch.from_pylist([{}] * rows, schema=schema)
     md: dict[bytes, bytes] = {bytes.fromhex(k): bytes.fromhex(v) for k, v in d["md"].items()}
+    md.update(seg_md(d.get("seg"), segs))
     if m is not None:
         md[b"vgi_rpc.method"] = b"\xff\xfe" if m == "\xff" else m.encode()
     if d["version"] is not None:
@@ -270,7 +310,7 @@ def abstract(data: bytes, static_shm: Any, version: str | None) -> dict[str, Any
     rq: dict[str, Any] = {
         "openStream": "ok", "firstRead": "ok", "laterReads": [], "hasMethod": False, "methodText": True, "version": "absent",
         "traceparent": "absent", "tracestate": "absent", "shmName": "absent", "shmSize": "absent", "isPointer": False,
-        "staticShm": static_shm is not None, "attach": "ok", "resolve": "ok", "release": "ok", "ncols": 0, "rows": 0, "asPy": "ok",
+        "staticShm": static_shm is not None, "shmOpen": "ok", "allocInit": "ok", "resolve": "ok", "release": "ok", "ncols": 0, "rows": 0, "asPy": "ok",
         "isTransportOptions": False, "methodKnown": False, "versionCheck": "ok", "validate": "ok", "call": "ok",
     }
     src = io.BytesIO(data)
@@ -323,8 +363,21 @@ def abstract(data: bytes, static_shm: Any, version: str | None) -> dict[str, Any
     seg = static_shm
     attached = None
     if rq["shmName"] == "text" and rq["shmSize"] == "numeric":
+        # the two halves of ShmSegment.attach, measured separately: the OS opening the mapping, the header validation
+        from multiprocessing.shared_memory import SharedMemory
+
+        from vgi_rpc.shm import ShmAllocator
+
+        st, raw = _step(lambda: SharedMemory(name=md[SHM_SEGMENT_NAME_KEY].decode(), create=False, size=int(sz), track=False))
+        rq["shmOpen"] = st
+        if st == "ok":
+            st2, _a = _step(lambda: ShmAllocator(raw.buf, raw.size))
+            rq["allocInit"] = st2
+            del _a
+            with contextlib.suppress(Exception):
+                raw.close()
         st, attached = _step(lambda: ShmSegment.attach(md[SHM_SEGMENT_NAME_KEY].decode(), int(sz), track=False))
-        rq["attach"] = st
+        rq["attachWhole"] = st
     try:
         if seg is None and rq["isPointer"]:
             seg = attached
@@ -400,7 +453,11 @@ def make_segments() -> dict[str, Any]:
 
     from vgi_rpc.shm import ShmSegment
 
-    foreign = SharedMemory(create=True, size=4096)
+    foreigns = {}
+    for label, (size, head) in FOREIGN_SPECS.items():
+        f = SharedMemory(create=True, size=size)
+        f.buf[: len(head)] = head
+        foreigns[label] = f
     real = ShmSegment.create(1 << 20)
     valid_ptr = {}
     for m, sch in SCHEMAS.items():
@@ -411,13 +468,15 @@ def make_segments() -> dict[str, Any]:
     junk = pa.RecordBatch.from_arrays([pa.array(list(range(64)), pa.int64())], names=["j"])
     off, ln = real.allocate_and_write(junk)
     real.buf[off : off + 64] = b"\x13" * 64
-    return {"foreign": foreign, "real": real, "valid_ptr": valid_ptr, "garbage_off": off}
+    return {"foreigns": foreigns, "real": real, "valid_ptr": valid_ptr, "garbage_off": off}
 
 
 def drop_segments(segs: dict[str, Any]) -> None:
-    with contextlib.suppress(Exception):
-        segs["foreign"].close()
-        segs["foreign"].unlink()
+    for f in segs["foreigns"].values():
+        with contextlib.suppress(Exception):
+            f.close()
+        with contextlib.suppress(Exception):
+            f.unlink()
     with contextlib.suppress(Exception):
         segs["real"].unlink()
         segs["real"].close()
@@ -508,11 +567,11 @@ def judge(ctx: Any, rec: dict[str, Any]) -> None:
     case = {"desc": desc, "transport": rec["transport"], "version": rec["version"], "hex": rec["hex"]}
     wf = well_framed(rq)
     d = desc["d"]
-    plain = (desc["kind"] == "request" and d["method"] in KNOWN_METHODS and d["version"] == "31" and not d["md"] and d["cols"] == "declared"
+    plain = (desc["kind"] == "request" and d["method"] in KNOWN_METHODS and d["version"] == "31" and not d["md"] and not d.get("seg") and d["cols"] == "declared"
              and d["rows"] == 1 and d["pointer"] is None and d["batches"] == 1)
     tags = [f"k:{desc['kind']}", f"t:{rec['transport']}", f"obs:{obs['outcome']}", f"reply:{obs['reply']}", f"wellframed:{wf}"]
     if desc["kind"] == "request":
-        tags += [f"seg:{d['seg_kind']}", f"ptr:{d['pointer']}", f"cols:{d['cols']}", f"rows:{d['rows']}", f"batches:{d['batches']}"]
+        tags += [f"seg:{d['seg_kind']}" + (":" + d["seg"]["label"] if d.get("seg") and d["seg_kind"] == "foreign" else ""), f"ptr:{d['pointer']}", f"cols:{d['cols']}", f"rows:{d['rows']}", f"batches:{d['batches']}"]
     else:
         tags += [f"mode:{desc['mode']}", f"ipcfail:{first_ipc_failure(rq)}"]
     if rec["reused"]:
@@ -530,6 +589,14 @@ def judge(ctx: Any, rec: dict[str, Any]) -> None:
             ctx.fail(case, f"C05:invalid:hang:{first_ipc_failure(rq)}", f"invalid bytes followed by EOF left the peer waiting: {desc}")
         elif first_ipc_failure(rq) == "ArrowInvalid" and obs["outcome"] == "silentStop":
             ctx.fail(case, f"C05:invalid:silent:{srvx}", f"pyarrow reports ArrowInvalid but no error stream was written (server={obs['server']})")
+    # ---- the hypotheses of C05_wellframed about the primitives (Spec.PrimitivesSane), checked on what was measured
+    OSF = {"OSError", "FileNotFoundError", "PermissionError", "BrokenPipeError", "ConnectionResetError", "ConnectionAbortedError"}
+    VF = {"ValueError", "UnicodeDecodeError", "ArrowInvalid"}
+    for prim, allowed in (("shmOpen", OSF | VF), ("allocInit", VF | {"StructError"}), ("attachWhole", OSF | VF), ("resolve", VF), ("release", VF)):
+        st = rq.get(prim, "ok")
+        if isinstance(st, dict) and st["raises"] not in allowed:
+            ctx.fail(case, f"C05:primitive:{prim}:{st['raises']}",
+                     f"{prim} raised {st['raises']}, outside the classes its callers guard against ({sorted(allowed)}); request: {str(d)[:300]}")
     # ---- K
     if ctx.driver is None:
         return
@@ -571,24 +638,27 @@ BADNAME_SEED = _badname_seed()
 
 
 def corpus_descs() -> list[dict[str, Any]]:
-    base = {"method": "add", "version": "31", "md": {}, "seg_kind": "none", "pointer": None, "rows": 1, "cols": "declared", "ncols": 2,
+    base = {"method": "add", "version": "31", "md": {}, "seg": None, "seg_kind": "none", "pointer": None, "rows": 1, "cols": "declared", "ncols": 2,
             "nullable": False, "batches": 1, "no_md": False, "colseed": 1}
     def w(**kw: Any) -> dict[str, Any]:
         d = dict(base)
         d.update(kw)
         return d
     h = lambda k, v: {k.hex(): v.hex()}  # noqa: E731
+    REAL = {"label": "real", "size": "actual"}
     return [
         w(),
         w(md={**h(b"vgi_rpc.shm_segment_name", b"no_such_segment_xyz"), **h(b"vgi_rpc.shm_segment_size", b"4096")}),       # DESIGN 7.1
         w(md=h(b"traceparent", b"\xff\xfe")),
         w(md={**h(b"traceparent", b"00-ab-cd-01"), **h(b"tracestate", b"\xff")}),
-        w(seg_kind="foreign", md="FOREIGN"),
-        w(seg_kind="real", md="REAL", pointer="offset_nonnumeric"),
-        w(seg_kind="real", md="REAL", pointer="no_length"),
-        w(seg_kind="real", md="REAL", pointer="garbage_region"),
-        w(seg_kind="real", md="REAL", pointer="out_of_range"),
-        w(seg_kind="real", md="REAL", pointer="valid"),
+        # foreign segments of every size / header shape, advertised on a plain call and as the carrier of a pointer request
+        *[w(seg_kind="foreign", seg={"label": lab, "size": sz}) for lab in FOREIGN_LABELS for sz in ("actual", "4096")],
+        *[w(seg_kind="foreign", seg={"label": lab, "size": "actual"}, pointer="valid") for lab in FOREIGN_LABELS],
+        w(seg_kind="real", seg=REAL, pointer="offset_nonnumeric"),
+        w(seg_kind="real", seg=REAL, pointer="no_length"),
+        w(seg_kind="real", seg=REAL, pointer="garbage_region"),
+        w(seg_kind="real", seg=REAL, pointer="out_of_range"),
+        w(seg_kind="real", seg=REAL, pointer="valid"),
         w(batches=0),
         w(batches=2),
         w(cols="nasty", colseed=1), w(cols="nasty", colseed=2), w(cols="nasty", colseed=3), w(cols="nasty", colseed=4),
@@ -607,11 +677,6 @@ def run_corpus(job: dict[str, Any]) -> list[dict[str, Any]]:
     try:
         for d in corpus_descs():
             d = dict(d)
-            if d["md"] == "FOREIGN":
-                d["md"] = {b"vgi_rpc.shm_segment_name".hex(): segs["foreign"].name.encode().hex(), b"vgi_rpc.shm_segment_size".hex(): b"4096".hex()}
-            elif d["md"] == "REAL":
-                d["md"] = {b"vgi_rpc.shm_segment_name".hex(): segs["real"].name.encode().hex(),
-                           b"vgi_rpc.shm_segment_size".hex(): str(segs["real"].size).encode().hex()}
             data = build(d, segs)
             for transport in ("pipe", "unix"):
                 rq0 = abstract(data, None, None)
